@@ -1463,6 +1463,11 @@ namespace bloch::compiler {
             if (bin->op == "&" || bin->op == "|" || bin->op == "^") {
                 if (lt.value == ValueType::Bit && rt.value == ValueType::Bit)
                     return combine(ValueType::Bit, "");
+                // element-wise on bit[] (with a bit[] or a bit): the result is a bit[] again
+                if (isBitArrayType(lt))
+                    return lt;
+                if (isBitArrayType(rt))
+                    return rt;
             }
             return combine(ValueType::Unknown, "");
         }
@@ -1477,9 +1482,12 @@ namespace bloch::compiler {
             }
             if (un->op == "!")
                 return combine(ValueType::Boolean, "");
-            if (un->op == "~")
+            if (un->op == "~") {
+                if (isBitArrayType(rt))
+                    return rt;
                 return combine((rt.value == ValueType::Bit) ? ValueType::Bit : ValueType::Unknown,
                                "");
+            }
             return combine(ValueType::Unknown, "");
         }
         if (auto post = dynamic_cast<PostfixExpression*>(expr)) {
